@@ -11,6 +11,7 @@ CONSTANTS
   CacheMisses = FALSE
   VerBumps = TRUE
   Forges = TRUE
+  Legacies = FALSE
   FailKinds = {}
 VIEW view
 ACTION_CONSTRAINT Emit
